@@ -7,6 +7,7 @@ import time
 import z3
 
 CVC5 = "/usr/bin/cvc5"
+Z3CLI = "/usr/local/bin/z3-new"
 
 _cache = {}
 _keep = []
@@ -47,6 +48,63 @@ def run_cvc5(fs, timeout_s, want_model=False):
         os.unlink(name)
 
 
+PORTFOLIO = (("red", "smt.mbqi=false"), ("red", ""), ("red", "smt.random_seed=2"), ("red", "smt.qi.max_multi_patterns=0"),
+             ("full", "smt.mbqi=false"), ("full", "smt.random_seed=3"))
+
+
+def _portfolio(fs, red, timeout_s):
+    import shutil
+    d = tempfile.mkdtemp(prefix="esvc-q-", dir=os.environ.get("ESVC_SCRATCH", "/var/tmp"))
+    procs = []
+    try:
+        files = {}
+        open(os.path.join(d, "full.smt2"), "w").write(to_smt2(fs))
+        files["full"] = os.path.join(d, "full.smt2")
+        if red is not None:
+            open(os.path.join(d, "red.smt2"), "w").write(to_smt2(red + [fs[-1]]))
+            files["red"] = os.path.join(d, "red.smt2")
+        for which, opt in PORTFOLIO:
+            if which not in files:
+                continue
+            args = [Z3CLI, "-T:%d" % max(1, int(timeout_s))] + ([opt] if opt else []) + [files[which]]
+            procs.append((which + ":" + (opt or "default"), subprocess.Popen(args, stdout=subprocess.PIPE, stderr=subprocess.DEVNULL, text=True)))
+        deadline = time.time() + timeout_s + 2
+        live = list(procs)
+        while live and time.time() < deadline:
+            for tag, p in list(live):
+                rc = p.poll()
+                if rc is None:
+                    continue
+                live.remove((tag, p))
+                out = (p.stdout.read() or "").strip().splitlines()
+                if out and out[0].strip() == "unsat":
+                    return tag
+            time.sleep(0.02)
+        return None
+    finally:
+        for _, p in procs:
+            if p.poll() is None:
+                try:
+                    p.kill()
+                except OSError:
+                    pass
+        for _, p in procs:
+            try:
+                p.wait(timeout=2)
+            except Exception:
+                pass
+        shutil.rmtree(d, ignore_errors=True)
+
+
+def _check(solver, budget_s):
+    """solver.check(); z3's own (soft) timeout applies.  Long-running quantified queries go to the process portfolio, which is
+    killed at its deadline (an interrupt from a watchdog thread crashed z3 5.1 and is not used)."""
+    try:
+        return solver.check()
+    except z3.Z3Exception:
+        return z3.unknown
+
+
 def prove(pc, goal, timeout_s=10.0, use_cvc5=True, key_extra=""):
     """returns dict(status=proved|refuted|unknown, model=ModelRef|None, ms, backend)"""
     STATS["queries"] += 1
@@ -65,6 +123,38 @@ def prove(pc, goal, timeout_s=10.0, use_cvc5=True, key_extra=""):
     t0 = time.time()
     strings = _has_strings(fs[-3:]) or _has_strings(fs)
     res = None
+    if not strings and any(_has_quant(f) for f in fs[:-1]):
+        # 1. easy obligations: the full hypothesis set, in process, short budget
+        sq = z3.Solver()
+        qb = min(1.5, 0.15 * timeout_s)
+        sq.set("timeout", int(qb * 1000))
+        for f in fs:
+            sq.add(f)
+        quick = _check(sq, qb)
+        if quick == z3.unsat:
+            dt = time.time() - t0
+            STATS["z3_s"] += dt
+            res = dict(status="proved", model=None, ms=dt * 1000, backend="z3")
+            _cache[key] = res
+            _keep.append(fs)
+            return res
+        if quick == z3.unknown and os.path.exists(Z3CLI) and key_extra != "vac":
+            # 2. portfolio (solver run time on quantified array queries varies 1 s .. minutes with the random seed):
+            #    several configurations in parallel processes, on the relevant-hypotheses subset and on the full set;
+            #    the first `unsat` discharges (sound: fewer hypotheses / any configuration), nothing else is concluded
+            ga = _array_consts(fs[-1])
+            red = [f for f in fs[:-1] if not _has_quant(f) or _array_consts(f) <= ga]
+            hit = _portfolio(fs, red if len(red) < len(fs) - 1 else None, timeout_s)
+            if hit:
+                dt = time.time() - t0
+                STATS["z3_s"] += dt
+                res = dict(status="proved", model=None, ms=dt * 1000, backend="z3-portfolio(%s)" % hit)
+                _cache[key] = res
+                _keep.append(fs)
+                return res
+            res = None
+            # fall through to one last in-process attempt (gives a candidate model for replay when it says sat)
+            timeout_s = min(timeout_s, 3.0)
     if not strings:
         qf = not any(_has_quant(f) for f in fs)
         r = z3.unknown
@@ -73,7 +163,7 @@ def prove(pc, goal, timeout_s=10.0, use_cvc5=True, key_extra=""):
             s.set("timeout", int(budget * 1000))
             for f in fs:
                 s.add(f)
-            r = s.check()
+            r = _check(s, budget)
             if r != z3.unknown:
                 break
             if qf and budget < timeout_s:
@@ -86,7 +176,7 @@ def prove(pc, goal, timeout_s=10.0, use_cvc5=True, key_extra=""):
                         st_.set("timeout", int(timeout_s * 300))
                         for f in fs:
                             st_.add(f)
-                        if st_.check() == z3.unsat:
+                        if _check(st_, timeout_s * 0.3) == z3.unsat:
                             hit = tname
                             break
                     except z3.Z3Exception:
@@ -114,7 +204,7 @@ def prove(pc, goal, timeout_s=10.0, use_cvc5=True, key_extra=""):
             s2.set("smt.random_seed", 7)
             for f in fs:
                 s2.add(f)
-            r2 = s2.check()
+            r2 = _check(s2, timeout_s * 0.5)
             dt = time.time() - t0
             STATS["z3_s"] += dt
             if r2 == z3.unsat:
@@ -174,6 +264,35 @@ def feasible(pc, cond, timeout_ms=500):
             s.add(f)
     s.add(c)
     return s.check() != z3.unsat
+
+
+_ac = {}
+
+
+def _array_consts(f):
+    """names of the uninterpreted array-sorted constants occurring in f"""
+    i = f.get_id()
+    if i in _ac:
+        return _ac[i]
+    out, seen = set(), set()
+
+    def walk(x):
+        if x.get_id() in seen:
+            return
+        seen.add(x.get_id())
+        if z3.is_quantifier(x):
+            walk(x.body())
+            return
+        if z3.is_const(x) and x.decl().kind() == z3.Z3_OP_UNINTERPRETED and x.sort().kind() == z3.Z3_ARRAY_SORT:
+            out.add(x.decl().name())
+            return
+        for c in x.children():
+            walk(c)
+    walk(f)
+    r = frozenset(out)
+    _ac[i] = r
+    _keep.append(f)
+    return r
 
 
 _hq = {}
